@@ -307,4 +307,318 @@ theorem propagate_backward_within_burn (n : ℝ) (hn : n ≠ 0) (ts te : ℝ) (a
     step_split n (t - t0) hx ha, vadd_comm6 (step_length ..) (step_length ..)]
   simp [hillTerm, not_le.mpr h0, hC, h1, not_le.mpr h2]
 
+/-! ## `hillSol` is the solution of Hill's equations with the piecewise-constant sum of the active thrusts -/
+
+open Filter Topology
+
+theorem step_deriv (n : ℝ) (hn : n ≠ 0) (c : ℝ) {v a : List ℝ} (hv : v.length = 6) (ha : a.length = 3) (t₀ : ℝ)
+    (i : Nat) (hi : i < 6) :
+    HasDerivAt (fun t => (cwStepQSW n (t - c) v a).getD i 0) ((hillRhs n (cwStepQSW n (t₀ - c) v a) a).getD i 0) t₀ := by
+  obtain ⟨x1, x2, x3, x4, x5, x6, rfl⟩ := len6 hv
+  obtain ⟨a1, a2, a3, rfl⟩ := len3 ha
+  exact HasDerivAt.comp_sub_const t₀ c (cw_solves_hill n hn x1 x2 x3 x4 x5 x6 a1 a2 a3 (t₀ - c) i hi)
+
+theorem hillRhs_add (n : ℝ) {s1 s2 a1 a2 : List ℝ} (h1 : s1.length = 6) (h2 : s2.length = 6) (h3 : a1.length = 3)
+    (h4 : a2.length = 3) (i : Nat) :
+    (hillRhs n (vadd s1 s2) (vadd a1 a2)).getD i 0 = (hillRhs n s1 a1).getD i 0 + (hillRhs n s2 a2).getD i 0 := by
+  obtain ⟨x1, x2, x3, x4, x5, x6, rfl⟩ := len6 h1
+  obtain ⟨y1, y2, y3, y4, y5, y6, rfl⟩ := len6 h2
+  obtain ⟨a, b, c, rfl⟩ := len3 h3
+  obtain ⟨a', b', c', rfl⟩ := len3 h4
+  rcases i with _ | _ | _ | _ | _ | _ | i <;> simp [hillRhs, vadd, powi] <;> ring
+
+theorem hillRhs_zero (n : ℝ) (i : Nat) : (hillRhs n zero6 zero3).getD i 0 = 0 := by
+  rcases i with _ | _ | _ | _ | _ | _ | i <;> simp [hillRhs, zero6, zero3, powi]
+
+/-- a list-valued function that coincides near `t₀` with a Clohessy–Wiltshire arc of constant thrust `a` has there, component
+by component, the derivative prescribed by Hill's equations with thrust `a` -/
+theorem deriv_of_eventually_step (n : ℝ) (hn : n ≠ 0) (f : ℝ → List ℝ) (t₀ c : ℝ) {v a : List ℝ} (hv : v.length = 6)
+    (ha : a.length = 3) (hev : ∀ᶠ t in 𝓝 t₀, f t = cwStepQSW n (t - c) v a) (i : Nat) (hi : i < 6) :
+    HasDerivAt (fun t => (f t).getD i 0) ((hillRhs n (f t₀) a).getD i 0) t₀ := by
+  rw [hev.self_of_nhds]
+  refine (step_deriv n hn c hv ha t₀ i hi).congr_of_eventuallyEq ?_
+  filter_upwards [hev] with t ht
+  rw [ht]
+
+theorem deriv_of_eventually_zero (n : ℝ) (f : ℝ → List ℝ) (t₀ : ℝ) (hev : ∀ᶠ t in 𝓝 t₀, f t = zero6) (i : Nat) :
+    HasDerivAt (fun t => (f t).getD i 0) ((hillRhs n (f t₀) zero3).getD i 0) t₀ := by
+  rw [hev.self_of_nhds, hillRhs_zero]
+  refine (hasDerivAt_const t₀ (0 : ℝ)).congr_of_eventuallyEq ?_
+  filter_upwards [hev] with t ht
+  rw [ht]; rcases i with _ | _ | _ | _ | _ | _ | i <;> simp [zero6]
+
+/-- the thrust a maneuver exerts at date `t` -/
+noncomputable def thrustOf (t : ℝ) : Man → List ℝ
+  | Man.imp _ _ => zero3
+  | Man.cont ts te a => if ts ≤ t ∧ t < te then a else zero3
+
+theorem thrustOf_length {m : Man} (h : WFMan m) (t : ℝ) : (thrustOf t m).length = 3 := by
+  cases m with
+  | imp tm dv => rfl
+  | cont ts te a => simp only [thrustOf]; split_ifs; exacts [h, rfl]
+
+theorem thrustAt_length (t : ℝ) : ∀ l : List Man, WF l → (thrustAt t l).length = 3
+  | [], _ => rfl
+  | Man.imp _ _ :: rest, h => thrustAt_length t rest h.tail
+  | Man.cont ts te a :: rest, h => by
+    simp only [thrustAt]; split_ifs
+    · exact vadd_length3 h.head (thrustAt_length t rest h.tail)
+    · exact thrustAt_length t rest h.tail
+
+theorem thrustAt_cons (t : ℝ) (m : Man) (l : List Man) (h : WF (m :: l)) :
+    thrustAt t (m :: l) = vadd (thrustOf t m) (thrustAt t l) := by
+  cases m with
+  | imp tm dv => simp [thrustAt, thrustOf, zero3_vadd (thrustAt_length t l h.tail)]
+  | cont ts te a =>
+    simp only [thrustAt, thrustOf]; split_ifs
+    · rfl
+    · exact (zero3_vadd (thrustAt_length t l h.tail)).symm
+
+/-- `t` is not a date at which maneuver `m` switches (impulse date, start or stop of a burn) -/
+def notSwitch (t : ℝ) : Man → Prop
+  | Man.imp tm _ => t ≠ tm
+  | Man.cont ts te _ => t ≠ ts ∧ t ≠ te
+
+/-- the term of one maneuver solves Hill's equations forced by that maneuver's own thrust -/
+theorem term_deriv (n : ℝ) (hn : n ≠ 0) (t0 : ℝ) (m : Man) (hm : WFMan m) (t₀ : ℝ) (h0 : t₀ ≠ t0) (hs : notSwitch t₀ m)
+    (i : Nat) (hi : i < 6) :
+    HasDerivAt (fun t => (hillTerm n t t0 m).getD i 0) ((hillRhs n (hillTerm n t₀ t0 m) (thrustOf t₀ m)).getD i 0) t₀ := by
+  cases m with
+  | imp tm dv =>
+    have hd : dv.length = 3 := hm
+    have hd' : (vneg dv).length = 3 := by rw [vneg_length]; exact hd
+    simp only [thrustOf]
+    rcases lt_or_gt_of_ne (show t₀ ≠ tm from hs) with h | h
+    · -- before the impulse date
+      have ev : ∀ᶠ t in 𝓝 t₀, t < tm := eventually_lt_nhds h
+      by_cases h1 : tm ≤ t0
+      · refine deriv_of_eventually_step n hn _ t₀ tm (kick_length hd') zero3_length ?_ i hi
+        filter_upwards [ev] with t ht
+        simp [hillTerm, not_lt.mpr h1, ht, h1]
+      · refine deriv_of_eventually_zero n _ t₀ ?_ i
+        filter_upwards [ev] with t ht
+        simp [hillTerm, not_le.mpr ht, h1]
+    · have ev : ∀ᶠ t in 𝓝 t₀, tm < t := eventually_gt_nhds h
+      by_cases h1 : t0 < tm
+      · refine deriv_of_eventually_step n hn _ t₀ tm (kick_length hd) zero3_length ?_ i hi
+        filter_upwards [ev] with t ht
+        simp [hillTerm, h1, ht.le]
+      · refine deriv_of_eventually_zero n _ t₀ ?_ i
+        filter_upwards [ev] with t ht
+        simp [hillTerm, h1, not_lt.mpr ht.le]
+  | cont ts te a =>
+    have ha : a.length = 3 := hm
+    obtain ⟨hs1, hs2⟩ : t₀ ≠ ts ∧ t₀ ≠ te := hs
+    rcases lt_or_gt_of_ne h0 with hdir | hdir
+    · -- dates before the orbit's date
+      have evd : ∀ᶠ t in 𝓝 t₀, t < t0 := eventually_lt_nhds hdir
+      by_cases hA : ts < t0
+      · rcases lt_or_gt_of_ne hs2 with h2 | h2
+        · have ev2 : ∀ᶠ t in 𝓝 t₀, t < te := eventually_lt_nhds h2
+          rcases lt_or_gt_of_ne hs1 with h1 | h1
+          · -- before the start: the whole overlap is undone, then a free coast
+            have ev1 : ∀ᶠ t in 𝓝 t₀, t < ts := eventually_lt_nhds h1
+            have hth : thrustOf t₀ (Man.cont ts te a) = zero3 := by simp [thrustOf, not_le.mpr h1]
+            rw [hth]
+            refine deriv_of_eventually_step n hn _ t₀ ts (v := cwStepQSW n (ts - (if te ≤ t0 then te else t0)) zero6 a)
+              (step_length ..) zero3_length ?_ i hi
+            filter_upwards [evd, ev1, ev2] with t htd ht1 ht2
+            simp [hillTerm, not_le.mpr htd, hA, ht2, not_le.mpr ht1]
+          · have ev1 : ∀ᶠ t in 𝓝 t₀, ts < t := eventually_gt_nhds h1
+            have hth : thrustOf t₀ (Man.cont ts te a) = a := by simp [thrustOf, h1.le, h2]
+            rw [hth]
+            refine deriv_of_eventually_step n hn _ t₀ (if te ≤ t0 then te else t0) zero6_length ha ?_ i hi
+            filter_upwards [evd, ev1, ev2] with t htd ht1 ht2
+            simp [hillTerm, not_le.mpr htd, hA, ht2, ht1.le]
+        · have ev2 : ∀ᶠ t in 𝓝 t₀, te < t := eventually_gt_nhds h2
+          have hth : thrustOf t₀ (Man.cont ts te a) = zero3 := by simp [thrustOf, not_lt.mpr h2.le]
+          rw [hth]
+          refine deriv_of_eventually_zero n _ t₀ ?_ i
+          filter_upwards [evd, ev2] with t htd ht2
+          simp [hillTerm, not_le.mpr htd, not_lt.mpr ht2.le]
+      · have hth : thrustOf t₀ (Man.cont ts te a) = zero3 := by
+          have : ¬ ts ≤ t₀ := fun h => hA (lt_of_le_of_lt h hdir)
+          simp [thrustOf, this]
+        rw [hth]
+        refine deriv_of_eventually_zero n _ t₀ ?_ i
+        filter_upwards [evd] with t htd
+        simp [hillTerm, not_le.mpr htd, hA]
+    · -- dates after the orbit's date
+      have evd : ∀ᶠ t in 𝓝 t₀, t0 ≤ t := (eventually_gt_nhds hdir).mono fun t ht => ht.le
+      by_cases hA : te > t0
+      · rcases lt_or_gt_of_ne hs1 with h1 | h1
+        · have ev1 : ∀ᶠ t in 𝓝 t₀, t < ts := eventually_lt_nhds h1
+          have hth : thrustOf t₀ (Man.cont ts te a) = zero3 := by simp [thrustOf, not_le.mpr h1]
+          rw [hth]
+          refine deriv_of_eventually_zero n _ t₀ ?_ i
+          filter_upwards [evd, ev1] with t htd ht1
+          simp [hillTerm, htd, not_le.mpr ht1]
+        · have ev1 : ∀ᶠ t in 𝓝 t₀, ts < t := eventually_gt_nhds h1
+          rcases lt_or_gt_of_ne hs2 with h2 | h2
+          · have ev2 : ∀ᶠ t in 𝓝 t₀, t < te := eventually_lt_nhds h2
+            have hth : thrustOf t₀ (Man.cont ts te a) = a := by simp [thrustOf, h1.le, h2]
+            rw [hth]
+            refine deriv_of_eventually_step n hn _ t₀ (if ts ≥ t0 then ts else t0) zero6_length ha ?_ i hi
+            filter_upwards [evd, ev1, ev2] with t htd ht1 ht2
+            simp [hillTerm, htd, hA, ht1.le, ht2]
+          · have ev2 : ∀ᶠ t in 𝓝 t₀, te < t := eventually_gt_nhds h2
+            have hth : thrustOf t₀ (Man.cont ts te a) = zero3 := by simp [thrustOf, not_lt.mpr h2.le]
+            rw [hth]
+            refine deriv_of_eventually_step n hn _ t₀ te (v := cwStepQSW n (te - (if ts ≥ t0 then ts else t0)) zero6 a)
+              (step_length ..) zero3_length ?_ i hi
+            filter_upwards [evd, ev1, ev2] with t htd ht1 ht2
+            simp [hillTerm, htd, hA, ht1.le, not_lt.mpr ht2.le]
+      · have hth : thrustOf t₀ (Man.cont ts te a) = zero3 := by
+          have : ¬ t₀ < te := fun h => hA (lt_trans hdir h)
+          simp [thrustOf, this]
+        rw [hth]
+        refine deriv_of_eventually_zero n _ t₀ ?_ i
+        filter_upwards [evd] with t htd
+        simp [hillTerm, htd, hA]
+
+/-- **`state_solves_hill_piecewise_thrust`** — for every list of maneuvers (impulsive and continuous, in any order, overlapping
+or not), every orbit date `t0`, every initial state and every date `t₀ ≠ t0` (after OR before the orbit's date) that is not a
+switching date of the list, each of the six components of `t ↦ hillSol … t` has at `t₀` the derivative prescribed by Hill's
+linearised equations evaluated on `hillSol … t₀` itself, with the SUM of the thrusts of the burns active at `t₀`. -/
+theorem state_solves_hill_piecewise_thrust (n : ℝ) (hn : n ≠ 0) (mans : List Man) (hwf : WF mans) (t0 : ℝ) (x0 : List ℝ)
+    (hx : x0.length = 6) (t₀ : ℝ) (h0 : t₀ ≠ t0) (hs : ∀ m ∈ mans, notSwitch t₀ m) (i : Nat) (hi : i < 6) :
+    HasDerivAt (fun t => (hillSol n mans t t0 x0).getD i 0)
+      ((hillRhs n (hillSol n mans t₀ t0 x0) (thrustAt t₀ mans)).getD i 0) t₀ := by
+  simp only [hillSol_eq]
+  induction mans with
+  | nil => exact step_deriv n hn t0 hx zero3_length t₀ i hi
+  | cons m rest ih =>
+    have hb : ∀ t, (sumTerms n t t0 rest (flow n (t - t0) x0)).length = 6 := fun t => sumTerms_length n t t0 rest (step_length ..)
+    have h1 := term_deriv n hn t0 m hwf.head t₀ h0 (hs m List.mem_cons_self) i hi
+    have h2 := ih hwf.tail (fun m' hm' => hs m' (List.mem_cons_of_mem _ hm'))
+    have h3 := h1.add h2
+    rw [thrustAt_cons t₀ m rest hwf]
+    simp only [sumTerms_cons]
+    rw [hillRhs_add n (hillTerm_length ..) (hb t₀) (thrustOf_length hwf.head t₀) (thrustAt_length t₀ rest hwf.tail)]
+    refine h3.congr_of_eventuallyEq (Eventually.of_forall fun t => ?_)
+    exact getD_vadd (hillTerm_length ..) (hb t) i
+
+/-- initial value: at the orbit's own date the solution is the orbit's state -/
+theorem hillSol_initial (n : ℝ) (hn : n ≠ 0) (mans : List Man) (hwf : WF mans) (t0 : ℝ) (x0 : List ℝ) (hx : x0.length = 6) :
+    hillSol n mans t0 t0 x0 = x0 := by
+  rw [hillSol_eq, sub_self, flow_zero n hn hx]
+  induction mans with
+  | nil => rfl
+  | cons m rest ih =>
+    have hT : hillTerm n t0 t0 m = zero6 := by
+      cases m with
+      | imp tm dv =>
+        have h1 : ¬ (t0 < tm ∧ tm ≤ t0) := fun ⟨a, b⟩ => absurd (lt_of_lt_of_le a b) (lt_irrefl _)
+        simp [hillTerm, h1]
+      | cont ts te a =>
+        have ha : a.length = 3 := hwf.head
+        by_cases h1 : te > t0 ∧ t0 ≥ ts
+        · have hs : (if ts ≥ t0 then ts else t0) = t0 := by
+            split_ifs with h
+            · exact le_antisymm h1.2 h
+            · rfl
+          simp [hillTerm, h1, hs, step_zero n hn zero6_length ha]
+        · simp [hillTerm, h1]
+    rw [sumTerms_cons, hT, ih hwf.tail, zero6_vadd hx]
+
+/-- **an impulse changes the velocity by exactly its Δv, exactly once, at its date** — whatever else is in the list: the term
+of an impulse dated after the orbit is zero before its date and is `(0, Δv)` at its date (the other terms are continuous
+there unless they switch at the same date) … -/
+theorem impulse_term_jump (n : ℝ) (hn : n ≠ 0) (t0 tm : ℝ) (dv : List ℝ) (hd : dv.length = 3) (h : t0 < tm) :
+    (∀ t, t0 ≤ t → t < tm → hillTerm n t t0 (Man.imp tm dv) = zero6) ∧ hillTerm n tm t0 (Man.imp tm dv) = kick dv := by
+  refine ⟨fun t h1 h2 => ?_, ?_⟩
+  · have : ¬ (t < tm ∧ tm ≤ t0) := fun hh => absurd hh.2 (not_le.mpr h)
+    simp [hillTerm, not_le.mpr h2, this]
+  · simp [hillTerm, h, flow_zero n hn (kick_length hd)]
+
+/-- … and the term of a burn is continuous at both of its ends: zero at its start, and at its stop the thrust arc hands over
+to the free coast of its end point -/
+theorem burn_term_joins (n : ℝ) (hn : n ≠ 0) (t0 ts te : ℝ) (a : List ℝ) (ha : a.length = 3) (h0 : t0 ≤ ts) (h1 : ts < te) :
+    hillTerm n ts t0 (Man.cont ts te a) = zero6 ∧
+      hillTerm n te t0 (Man.cont ts te a) = cwStepQSW n (te - ts) zero6 a := by
+  have h2 : t0 < te := lt_of_le_of_lt h0 h1
+  constructor
+  · simp [hillTerm, h0, h1, h2, step_zero n hn zero6_length ha]
+  · simp [hillTerm, h0, h1.le, h2, le_trans h0 h1.le, flow_zero n hn (step_length ..)]
+
+/-! ## TNW orientation: the whole of `propagate`, with any maneuver list -/
+
+/-- a maneuver given in TNW axes: its vector is the axis permutation of the QSW one -/
+def permMan : Man → Man
+  | Man.imp tm dv => Man.imp tm (perm3 dv)
+  | Man.cont ts te a => Man.cont ts te (perm3 a)
+
+theorem tnw_step (n τ : ℝ) {x a : List ℝ} (hx : x.length = 6) (ha : a.length = 3) :
+    cwStepTNW n τ (perm6 x) (perm3 a) = perm6 (cwStepQSW n τ x a) := by
+  obtain ⟨x1, x2, x3, x4, x5, x6, rfl⟩ := len6 hx
+  obtain ⟨a1, a2, a3, rfl⟩ := len3 ha
+  exact tnw_is_permuted_qsw n x1 x2 x3 x4 x5 x6 a1 a2 a3 τ
+
+theorem tnw_flow (n τ : ℝ) {x : List ℝ} (hx : x.length = 6) : cwStepTNW n τ (perm6 x) zero3 = perm6 (flow n τ x) := by
+  have := tnw_step n τ hx zero3_length
+  simpa [perm3, zero3] using this
+
+theorem perm6_addDv {x dv : List ℝ} (hx : x.length = 6) (hd : dv.length = 3) :
+    addDv (perm6 x) (perm3 dv) = perm6 (addDv x dv) := by
+  obtain ⟨x1, x2, x3, x4, x5, x6, rfl⟩ := len6 hx
+  obtain ⟨a1, a2, a3, rfl⟩ := len3 hd
+  simp [addDv, perm6, perm3, vadd, add_comm]
+
+theorem go_tnw (n t t0 : ℝ) : ∀ (l : List Man) (tc : ℝ) (x : List ℝ), x.length = 6 → WF l →
+    cwPropagate.go true n t t0 (l.map permMan) tc (perm6 x) = perm6 (cwPropagate.go false n t t0 l tc x) := by
+  intro l
+  induction l with
+  | nil => intro tc x hx _; simp [cwPropagate.go, cwStep, tnw_flow n _ hx]
+  | cons m rest ih =>
+    intro tc x hx hwf
+    have hwr := hwf.tail
+    cases m with
+    | imp tm dv =>
+      have hd : dv.length = 3 := hwf.head
+      by_cases h1 : t0 < tm ∧ tm ≤ t
+      · simp only [List.map_cons, permMan, cwPropagate.go, if_pos h1, cwStep, if_true, Bool.false_eq_true, if_false]
+        rw [tnw_flow n _ hx, perm6_addDv (step_length ..) hd, ih tm _ (addDv_length (step_length ..) hd) hwr]
+      · simp only [List.map_cons, permMan, cwPropagate.go, if_neg h1]
+        exact ih tc x hx hwr
+    | cont ts te a =>
+      have ha : a.length = 3 := hwf.head
+      by_cases h1 : te > t0 ∧ t ≥ ts
+      · by_cases h3 : ts ≤ t ∧ t < te
+        · simp only [List.map_cons, permMan, cwPropagate.go, if_pos h1, if_pos h3, cwStep, if_true, Bool.false_eq_true, if_false]
+          rw [tnw_flow n _ hx, tnw_step n _ (step_length ..) ha]
+        · simp only [List.map_cons, permMan, cwPropagate.go, if_pos h1, if_neg h3, cwStep, if_true, Bool.false_eq_true, if_false]
+          rw [tnw_flow n _ hx, tnw_step n _ (step_length ..) ha, ih te _ (step_length ..) hwr]
+      · simp only [List.map_cons, permMan, cwPropagate.go, if_neg h1]
+        exact ih tc x hx hwr
+
+/-- **Results in TNW orientation are the fixed axis permutation of those in QSW — for the whole of `propagate`**: any list of
+maneuvers (their vectors given in the axes of the orbit), any date, any orbit date. -/
+theorem propagate_tnw_is_permuted_qsw (n : ℝ) (mans : List Man) (hwf : WF mans) (t t0 : ℝ) (x0 : List ℝ) (hx : x0.length = 6) :
+    cwPropagate true n (mans.map permMan) t t0 (perm6 x0) = perm6 (cwPropagate false n mans t t0 x0) := by
+  simp only [cwPropagate]
+  exact go_tnw n t t0 mans t0 x0 hx hwf
+
+/-! ## non-vacuity -/
+
+/-- two overlapping burns and an impulse fired during both, listed out of order: a date after all of them satisfies `NoCut` -/
+example : NoCut 10 0 [Man.cont 2 6 [0, 1, 0], Man.imp 4 [1, 0, 0], Man.cont 1 5 [0, 0, 1]] ∧
+    WF [Man.cont 2 6 [0, 1, 0], Man.imp 4 [1, 0, 0], Man.cont 1 5 [0, 0, 1]] ∧ (0 : ℝ) ≤ 10 := by
+  refine ⟨noCut_of_outsideBurns _ _ _ (by norm_num [outsideBurns]), ?_, by norm_num⟩
+  intro m hm; simp at hm; rcases hm with rfl | rfl | rfl <;> rfl
+
+/-- a date inside the LAST listed active burn satisfies `NoCut` as well (overlap, the burn containing the date listed last) -/
+example : NoCut 5.5 0 [Man.cont 1 5 [0, 0, 1], Man.cont 2 6 [0, 1, 0]] := by
+  refine ⟨fun h => ?_, fun _ m hm => by simp at hm, trivial⟩
+  norm_num at h
+
+/-- the hypotheses of `state_solves_hill_piecewise_thrust` at a date inside the overlap of two burns, after an impulse -/
+example : (∀ m ∈ [Man.cont 2 6 [0, 1, 0], Man.imp 4 [1, 0, 0], Man.cont 1 5 [0, 0, 1]], notSwitch 4.5 m) ∧ (4.5 : ℝ) ≠ 0 ∧
+    thrustAt 4.5 [Man.cont 2 6 [0, 1, 0], Man.imp 4 [1, 0, 0], Man.cont 1 5 [0, 0, 1]] = [0, 1, 1] := by
+  refine ⟨?_, by norm_num, by norm_num [thrustAt, vadd, zero3]⟩
+  intro m hm; simp at hm; rcases hm with rfl | rfl | rfl <;> norm_num [notSwitch]
+
+/-- `Clear`: going back from date 10 to date 8 with every maneuver earlier -/
+example : ∀ m ∈ [Man.cont 2 6 [0, 1, 0], Man.imp 4 [1, 0, 0]], Clear 8 10 m := by
+  intro m hm; simp at hm; rcases hm with rfl | rfl <;> norm_num [Clear]
+
 end BeyondVerif.C16
